@@ -469,7 +469,7 @@ func Run(args []string) int {
 	for i := 0; i < *n && anomalies < 12; i++ {
 		var res result
 		if *idleFam {
-			res = runIdleFamily(r.Fork(), i%2 == 1)
+			res = runIdleFamily(r.Fork(), i)
 		} else {
 			res = runSchedule(r.Fork(), !*racy, *maxOps, *viaRec, *big)
 		}
